@@ -520,6 +520,8 @@ def execute(prop, plan, tier, seed, expinfo, t_start, exp=None):
         vac += [dict(kani_guard=h['harness'], result='fails as required') for h in kr
                 if spec_by.get(h['harness'], {}).get('should_fail') and h['status'] == 'ok']
 
+    plan.notes.append('decision rule for refuted Verus obligations: each is replayed on the real code (HEAD vs working tree at f64, the contract clauses evaluated on '
+                      '4800 generated inputs); reproduced or not replayable -> VIOLATION, indistinguishable from HEAD on every input -> UNDECIDED (DESIGN.md 4)')
     # ---- known findings
     kf = [k for k in known_findings() if k.get('property') == prop and k.get('status') == 'open']
     reported = []
